@@ -333,6 +333,13 @@ def _operators(chk, ctx) -> None:
     hand = prog.cls('Hand')
     chk.ob('C04.operators', 'Hand:@total_ordering', 'total_ordering' in deco_names(hand.node), hand.loc,
            'the remaining comparisons are derived from __lt__ and __eq__')
+    # ... for every hand type: no subclass (and no other comparison method of Hand) has an order of its own
+    CMP = {'__lt__', '__le__', '__gt__', '__ge__', '__eq__', '__ne__', '__hash__', '__bool__', '__cmp__'}
+    own = [(c, m) for c in [hand] + prog.subclasses('Hand') for m in sorted(CMP & set(c.methods))
+           if not (c is hand and m in ('__lt__', '__eq__', '__hash__'))]
+    chk.ob('C04.operators', 'Hand:one_order', not own, own[0][0].methods[own[0][1]].loc if own else hand.loc,
+           'hands are ordered, compared and hashed by Hand.__lt__ / __eq__ / __hash__ alone (total_ordering derives the rest)',
+           got=[f'{c.name}.{m}' for c, m in own])
     se, oe = T.spec('self.entry'), T.spec('other.entry')
     # __lt__
     lt = hand.methods.get('__lt__')
